@@ -11,7 +11,8 @@ before the raise is discarded exactly where the Python discards it (immutable ma
 namespace Model
 
 inductive Err where
-  | validation (msg : String)   -- ValidationError and subclasses
+  | validation (msg : String)   -- ValidateTransactionError / ValidateBlockError / ValidateBlockHeaderError / ValidatePOWError
+  | range (msg : String)        -- plain ValidationError (raised by validate_sashimi_range): NOT a ValidateTransactionError
   | key (what : String)         -- KeyError / IndexError
   | decode                      -- any exception while deserializing
   | other (msg : String)
